@@ -37,6 +37,7 @@ extern "C" {
 
 #include "upipe/ubase.h"
 #include "upipe/uatomic.h"
+#include "upipe/uverif.h"
 
 #include <stdint.h>
 #include <stdbool.h>
@@ -96,7 +97,9 @@ static inline void uring_elem_set(struct uring *uring, uring_index index,
                                   void *opaque)
 {
     struct uring_elem *elem = uring_elem_from_index(uring, index);
+    UVERIF_YIELD(UVERIF_RING_TAG_INC, &elem->tag);
     elem->tag++;
+    UVERIF_YIELD(UVERIF_RING_OPAQUE_WRITE, &elem->opaque);
     elem->opaque = opaque;
 }
 
@@ -109,6 +112,7 @@ static inline void uring_elem_set(struct uring *uring, uring_index index,
 static inline void *uring_elem_get(struct uring *uring, uring_index index)
 {
     struct uring_elem *elem = uring_elem_from_index(uring, index);
+    UVERIF_YIELD(UVERIF_RING_OPAQUE_READ, &elem->opaque);
     return elem->opaque;
 }
 
@@ -162,6 +166,7 @@ static inline uring_lifo_val uring_lifo_from_index(struct uring *uring,
         return URING_LIFO_NULL;
 
     assert(index <= uring->length);
+    UVERIF_YIELD(UVERIF_RING_TAG_READ, &uring->elems[index - 1].tag);
     uring_lifo_val lifo = ((uring_lifo_val)uring->elems[index - 1].tag << 16) |
                           (uring_lifo_val)index;
     return lifo;
@@ -208,6 +213,7 @@ static inline uring_index uring_lifo_pop(struct uring *uring,
 
         index = uring_lifo_to_index(uring, old_lifo);
         struct uring_elem *elem = uring_elem_from_index(uring, index);
+        UVERIF_YIELD(UVERIF_RING_NEXT_READ, &elem->next);
         new_lifo = uring_lifo_from_index(uring, elem->next);
     } while (unlikely(!uatomic_compare_exchange(lifo_p, &old_lifo, new_lifo)));
 
@@ -228,6 +234,7 @@ static inline void uring_lifo_push(struct uring *uring, uring_lifo *lifo_p,
     uring_lifo_val old_lifo = uatomic_load(lifo_p);
 
     do {
+        UVERIF_YIELD(UVERIF_RING_NEXT_WRITE, &elem->next);
         elem->next = uring_lifo_to_index(uring, old_lifo);
     } while (unlikely(!uatomic_compare_exchange(lifo_p, &old_lifo, new_lifo)));
 }
@@ -266,6 +273,7 @@ static inline void uring_fifo_set_tail(struct uring *uring,
         return;
 
     assert(index <= uring->length);
+    UVERIF_YIELD(UVERIF_RING_TAG_READ, &uring->elems[index - 1].tag);
     *fifo_p |= ((uring_fifo_val)uring->elems[index - 1].tag & 0xff) << 24;
     *fifo_p |= (uring_fifo_val)index << 16;
 }
@@ -284,6 +292,7 @@ static inline void uring_fifo_set_head(struct uring *uring,
         return;
 
     assert(index <= uring->length);
+    UVERIF_YIELD(UVERIF_RING_TAG_READ, &uring->elems[index - 1].tag);
     *fifo_p |= ((uring_fifo_val)uring->elems[index - 1].tag & 0xff) << 8;
     *fifo_p |= (uring_fifo_val)index;
 }
@@ -330,6 +339,7 @@ static inline uring_index uring_fifo_find(struct uring *uring,
     uring_index index = start;
     do {
         struct uring_elem *elem = uring_elem_from_index(uring, index);
+        UVERIF_YIELD(UVERIF_RING_NEXT_READ, &elem->next);
         uring_index next = elem->next;
         if (next == find)
             return index;
@@ -408,6 +418,7 @@ static inline void uring_fifo_push(struct uring *uring, uring_fifo *fifo_p,
     do {
         new_fifo = old_fifo;
         uring_index tail = uring_fifo_get_tail(uring, old_fifo);
+        UVERIF_YIELD(UVERIF_RING_NEXT_WRITE, &elem->next);
         elem->next = tail;
         if (tail == URING_INDEX_NULL)
             uring_fifo_set_head(uring, &new_fifo, index);
